@@ -18,6 +18,8 @@ package scrapligo
 //@   requires snt != nil
 //@   ensures a_reply_with_an_error_is_never_a_response [C18]: called(EditConfig) && callres(EditConfig, 0, 1) == nil && callres(EditConfig, 0, 0) != nil &&
 //@            len(callres(EditConfig, 0, 0).ErrorMessages) > 0 ==> r0 == nil
+//@   ensures a_failed_reply_passes_only_if_all_it_carries_are_warnings [C18]: called(EditConfig) && callres(EditConfig, 0, 1) == nil && callres(EditConfig, 0, 0) != nil &&
+//@            callres(EditConfig, 0, 0).Failed != nil && len(callres(EditConfig, 0, 0).WarningErrorMessages) == 0 ==> r0 == nil && r1 != nil
 //@   ensures a_driver_error_is_an_error [C18]: called(EditConfig) && callres(EditConfig, 0, 1) != nil ==> r0 == nil && r1 != nil
 
 // commit and discard-changes: success is reported exactly when the library reports neither an error nor a failed reply
